@@ -1784,3 +1784,92 @@ def only_changes_rebuild(ctx):
                     f"{f.name}() rebuilds unconditionally (`{short(c, 30)}`): a function already in use loses its resolution cache, and calls with argument types already seen run the whole resolution - user predicates and hooks included - again",
                 )
     ctx.require(n >= 7, "expected the call sites of the update and build methods")
+
+
+# ---------------------------------------------------------------------------------------- one type written twice
+def type_written_twice_is_one_type(ctx):
+    """A type made by the forwarding metaclass from a handler object - `Exactly[A]`, `HasMethod["m"]`, `A | B` of the
+    package, a class_check - is made anew every time it is written.  Two such types made from the same constituents
+    (the same check function, equal arguments) are equal and hash alike: interpreted on the metaclass's `__eq__` /
+    `__hash__` and the handler classes' constructors."""
+    from ..metainterp import HostInterp, Instance, Raised, Record
+
+    repo = ctx.repo
+    metas = [c for c in repo.all_classes() if "type" in c.base_names and "__eq__" in c.methods and "__hash__" in c.methods]
+    ctx.require(len(metas) == 1, "forwarding metaclass with its own equality not found")
+    M = metas[0]
+    # the attribute of the type object that holds the handler: the keyword of the namespace passed to type.__new__
+    hattr = None
+    new = M.methods.get("__new__")
+    if new is not None:
+        for d in ast.walk(new.node):
+            if isinstance(d, ast.Dict) and len(d.keys) == 1 and isinstance(d.keys[0], ast.Constant):
+                hattr = d.keys[0].value
+    ctx.require(hattr is not None, f"{M.key}: handler attribute not found")
+    # handler classes: constructed inside a call of the metaclass, or handed to the function that contains such a call
+    handlers = []
+    makers = set()
+    for f in repo.all_funcs():
+        for c in ast.walk(f.node):
+            if isinstance(c, ast.Call) and call_name(c) == M.name and len(c.args) == 2:
+                top = f
+                while top.parent is not None:
+                    top = top.parent
+                if top.cls is None:
+                    makers.add(top.name)
+                elif top.cls.parent_func is not None:
+                    makers.add(top.cls.parent_func.name if hasattr(top.cls.parent_func, "name") else "")
+                h = c.args[1]
+                if isinstance(h, ast.Call) and isinstance(h.func, ast.Name):
+                    r = repo.resolve_name(f.module, h.func.id)
+                    if r and r[0] == "class" and r[1] not in handlers:
+                        handlers.append(r[1])
+    for c in repo.all_classes():
+        for d in c.node.decorator_list:
+            if dotted(d) in makers and c not in handlers:
+                handlers.append(c)
+    ctx.require(len(handlers) >= 2, "handler classes of the forwarding metaclass not found")
+    mraw = repo.raw_methods(M)
+    fn_tok = Record(__name__="check", __qualname__="check", __module__="m", __code__=Record(kind="code"), __doc__=None, kind="the check function")
+    A_, B_ = type("A", (), {}), type("B", (), {})
+    for H in handlers:
+        raw = repo.raw_methods(H)
+        init = raw.get("__init__")
+        if init is None:
+            continue
+        ctx.touch(H.methods["__init__"], M.methods["__eq__"], M.methods["__hash__"])
+
+        def build(args):
+            o = Instance(H.name, raw)
+            hi.call_function(init, [o] + list(args), {}, {})
+            t = Instance(M.name, mraw)
+            t.__dict__[hattr] = o
+            return t
+
+        funcs = {k: g.node for k, g in H.module.funcs.items() if g.parent is None and g.cls is None and not g.node.decorator_list}
+        hi = HostInterp(mraw, Record(), {}, globals_env={}, classes={}, functions=funcs)
+        same = (A_, B_) if init.args.vararg is not None else (fn_tok, (A_,))
+        other = (A_, type("C", (), {})) if init.args.vararg is not None else (fn_tok, (B_,))
+        try:
+            t1, t2, t3 = build(same), build(same), build(other)
+            eq = hi.call_function(mraw["__eq__"], [t1, t2], {}, {})
+            ne = hi.call_function(mraw["__eq__"], [t1, t3], {}, {})
+            h1 = hi.call_function(mraw["__hash__"], [t1], {}, {})
+            h2 = hi.call_function(mraw["__hash__"], [t2], {}, {})
+        except (AnalysisError, Raised, TypeError, AttributeError) as e:
+            raise AnalysisError(f"{H.key}: types made from it are not interpretable: {e}")
+        what = "the same members" if init.args.vararg is not None else "the same check function and equal arguments"
+        problems = []
+        if eq is NotImplemented or not eq:
+            problems.append(f"two types made from {what} compare unequal")
+        elif h1 != h2:
+            problems.append(f"two types made from {what} are equal but hash differently")
+        if ne is not NotImplemented and ne:
+            problems.append("two types made from different arguments compare equal")
+        ctx.ob(
+            f"{H.key}:written-twice-is-one-type",
+            H.loc(),
+            f"two types made through `{M.name}` from `{H.name}` objects with {what} are equal and hash alike; with different arguments they differ (interpreted)",
+            not problems,
+            "; ".join(problems) + ": the same annotation written in two places gives two signatures - a re-registration does not replace the method it repeats, the order of the two is MORE in both directions, and a type registered once is looked up as missing",
+        )
